@@ -270,7 +270,7 @@ class SimpleEventSequence(EventSequence):
         self._events.extend([self._pad_event] * (steps - len(self)))
     else:
       if from_left:
-        del self._events[0:-steps]
+        del self._events[:len(self) - steps]
       else:
         del self._events[steps:]
 
